@@ -256,4 +256,10 @@ func C08(r *chk.Run) {
 	r.Assume("SkipMagic configurations are excluded: Reader cannot open a file without leading magic")
 	r.Rule("oracle: Writer.Statistics after Close, the statistics record decoded by the reference decoder, and Reader.Info().Statistics all equal the model aggregates; Info listings equal the summary groups the file keeps")
 	writerSpace(r, so, c08Oracle)
+	// Info must not depend on what else the Reader was used for
+	d := 3
+	if r.Thorough() {
+		d = 4
+	}
+	histPhase(r, "C08", d)
 }
